@@ -39,6 +39,8 @@ func vfBuildAndRender(create, format int, a string) (string, bool) {
 		out, err = Render(t, "utf8-light")
 	case 5:
 		out, err = Render(t, "none")
+	case 6:
+		out, err = Render(t, "html")
 	}
 	return out, err != nil
 }
@@ -49,8 +51,12 @@ func vfBuildAndRender(create, format int, a string) (string, bool) {
 func VerifC16_independent() {
 	a1 := vfString("a1", 1, vfTXT)
 	a2 := vfString("a2", 1, vfTXT)
-	c1, f1 := vfChoice("create1", 4), vfChoice("format1", 6)
-	c2, f2 := 0, vfChoice("format2", 6)
+	nc := 2
+	if vfTier() == 1 {
+		nc = 4
+	}
+	c1, f1 := vfChoice("create1", nc)*(5-nc), vfChoice("format1", 7)
+	c2, f2 := 0, vfChoice("format2", 7)
 	if vfTier() == 1 {
 		c2 = vfChoice("create2", 4)
 	}
